@@ -30,7 +30,7 @@ ASSUMPTIONS = [
 REAL_COMPONENTS = ["vsg.__main__.main and everything below it (argument parsing, configuration, tokenizer, classifier, rules, fix, write_vhdl_file, shutil.copystat)", "pickle transport of pool tasks/results", "kernel tmpfs file system", "forked worker processes"]
 STUBBED_COMPONENTS = ["multiprocessing.Pool scheduling (SimPool + Decider)", "data phase of shutil.copy2 (decomposed)", "clock/hostname", "directory order", "stdin/stdout capture", "process death (os._exit / SIGKILL chosen by the simulator)"]
 
-MUTATING = {"open-w", "write", "flush", "close", "chmod", "replace", "remove", "truncate", "utime", "copy-open", "copy-data", "copy-stat", "link"}
+MUTATING = {"open-w", "write", "write-raw", "flush", "close", "chmod", "replace", "remove", "truncate", "utime", "copy-open", "copy-data", "copy-stat", "link"}
 
 E = errno
 FAULTS_BY_KIND = {
@@ -39,6 +39,7 @@ FAULTS_BY_KIND = {
     "stat": [["err", E.ENOENT], ["err", E.EACCES], ["crash"]],
     "open-w": [["err", E.EACCES], ["err", E.ENOSPC], ["err", E.EMFILE], ["err", E.EROFS], ["disk-full", E.ENOSPC], ["crash"], ["interrupt"]],
     "write": [["err", E.ENOSPC], ["err", E.EIO], ["disk-full", E.ENOSPC], ["crash"], ["interrupt"], "partials"],
+    "write-raw": [["err", E.ENOSPC], ["err", E.EIO], ["disk-full", E.ENOSPC], ["crash"], ["interrupt"], "partials", "shorts"],
     "close": [["err", E.ENOSPC], ["err", E.EIO], ["crash"], ["interrupt"]],
     "chmod": [["err", E.EPERM], ["err", E.EROFS], ["crash"], ["interrupt"]],
     "replace": [["err", E.EACCES], ["err", E.EBUSY], ["err", E.ENOSPC], ["err", E.EXDEV], ["crash"], ["interrupt"]],
@@ -66,6 +67,12 @@ def faults_for(kind, length):
                 if 0 <= n < L:
                     out.append(["partial", n, E.ENOSPC])
                     out.append(["partial", n, "crash"])
+        elif f == "shorts":
+            # write(2) on an unbuffered handle accepts only part of the data and reports the count
+            L = int(length or 0)
+            for n in sorted({1, 100, L - 1, L // 2, 4096}):
+                if 0 < n < L:
+                    out.append(["short", n])
         else:
             out.append(list(f))
     return out
@@ -519,7 +526,7 @@ def run_job(job, env):
         fl = faults_for(kind, extra if isinstance(extra, int) else 0)
         if not fl:
             continue
-        cat = rng.choice(["err", "err", "crash", "partial", "interrupt", "interrupt", "disk-full"])
+        cat = rng.choice(["err", "err", "crash", "partial", "interrupt", "interrupt", "disk-full", "short"])
         fl2 = [x for x in fl if x[0] == cat] or fl
         f = rng.choice(fl2)
         if f[0] == "partial":
